@@ -187,6 +187,25 @@ func c01BuildScenario(r *rng) *c01Scenario {
 		l := r.n(nLists)
 		bodies[l] = append(bodies[l], t)
 	}
+	if r.chance(1, 5) {
+		// rule lines longer than the scanner's 4096-byte read buffer, landing in the $domain index / the
+		// sequential table (no usable shortcut): a long $domain list, a long $client list
+		var ds []string
+		for k := 0; k < 280+r.n(60); k++ {
+			ds = append(ds, fmt.Sprintf("d%03d.%s", k, pick(r, poolDomains)))
+		}
+		tail := pick(r, poolDomains)
+		for _, t := range []string{
+			pick(r, c01Short) + "$domain=" + strings.Join(ds, "|") + "|" + tail,
+			pick(r, c01Short) + "$client=" + strings.ReplaceAll(strings.Join(ds, "|"), ".", "-") + "|tailclient",
+		} {
+			if _, err := rules.NewNetworkRule(t, 1); err == nil && r.chance(2, 3) {
+				all = append(all, t)
+				l := r.n(nLists)
+				bodies[l] = append(bodies[l], t)
+			}
+		}
+	}
 	var coll []string
 	if cs := c01TextCollisions(); len(cs) > 0 && r.chance(1, 6) {
 		// two different sequential-table rules whose texts collide under the 32-bit hash
@@ -272,6 +291,10 @@ func c01Source(r *rng, f *rules.NetworkRule) string {
 	d := pick(r, pd)
 	if strings.HasSuffix(d, ".*") {
 		d = strings.TrimSuffix(d, "*") + pick(r, []string{"com", "co.uk", "de", "org", "notatld"})
+	}
+
+	if r.chance(1, 6) {
+		d = mutateCase(r, d) // the source host as written: it is not lower-cased for the $domain tests
 	}
 
 	return pick(r, []string{"http://", "https://"}) + pick(r, []string{"", "", "www.", "a.b."}) + d + pick(r, []string{"", "/", "/page"})
